@@ -26,6 +26,15 @@ func svcRow(t *state.VerifStoreTables, node, id string) *structs.ServiceNode {
 	return nil
 }
 
+func svcRowPeer(t *state.VerifStoreTables, node, id, peer string) *structs.ServiceNode {
+	for _, v := range t.Services {
+		if v.PeerName == peer && lower(v.Node) == lower(node) && lower(v.ServiceID) == lower(id) {
+			return v
+		}
+	}
+	return nil
+}
+
 func chkRow(t *state.VerifStoreTables, node, id string) *structs.HealthCheck {
 	for _, c := range t.Checks {
 		if lower(c.Node) == lower(node) && lower(string(c.CheckID)) == lower(id) {
@@ -161,9 +170,9 @@ func connectTarget(v *structs.ServiceNode) string {
 	return ""
 }
 
-func hasName(t *state.VerifStoreTables, name string) bool {
+func hasName(t *state.VerifStoreTables, name, peer string) bool {
 	for _, v := range t.Services {
-		if v.PeerName == "" && lower(v.ServiceName) == lower(name) {
+		if v.PeerName == peer && lower(v.ServiceName) == lower(name) {
 			return true
 		}
 	}
@@ -175,7 +184,7 @@ func hasName(t *state.VerifStoreTables, name string) bool {
 // over the names still present and never looks at the extinction index.
 func proxyNameExtinct(q *query, b, a *state.VerifStoreTables) bool {
 	for _, v := range b.Services {
-		if v.PeerName == "" && lower(connectTarget(v)) == lower(q.Service) && !hasName(a, v.ServiceName) {
+		if v.PeerName == q.Peer && lower(connectTarget(v)) == lower(q.Service) && !hasName(a, v.ServiceName, q.Peer) {
 			return true
 		}
 	}
@@ -187,10 +196,10 @@ func proxyNameExtinct(q *query, b, a *state.VerifStoreTables) bool {
 // destination): with no Connect rows left the code reads the service extinction index, which nothing bumped.
 func stoppedBeingConnect(q *query, b, a *state.VerifStoreTables) bool {
 	for _, v := range b.Services {
-		if v.PeerName != "" || lower(connectTarget(v)) != lower(q.Service) {
+		if v.PeerName != q.Peer || lower(connectTarget(v)) != lower(q.Service) {
 			continue
 		}
-		if w := svcRow(a, v.Node, v.ServiceID); w != nil && w.PeerName == "" && lower(connectTarget(w)) != lower(q.Service) {
+		if w := svcRowPeer(a, v.Node, v.ServiceID, q.Peer); w != nil && lower(connectTarget(w)) != lower(q.Service) {
 			return true
 		}
 	}
@@ -200,7 +209,7 @@ func stoppedBeingConnect(q *query, b, a *state.VerifStoreTables) bool {
 // hasProxyFor: some instance answers Connect queries for the target under ANOTHER service name
 func hasProxyFor(q *query, t *state.VerifStoreTables) bool {
 	for _, v := range t.Services {
-		if v.PeerName == "" && lower(connectTarget(v)) == lower(q.Service) && lower(v.ServiceName) != lower(q.Service) {
+		if v.PeerName == q.Peer && lower(connectTarget(v)) == lower(q.Service) && lower(v.ServiceName) != lower(q.Service) {
 			return true
 		}
 	}
@@ -303,13 +312,15 @@ func shapeOfWide(q *query, trees []string, b, a *state.VerifStoreTables, gb, ga 
 		if gatewayLinkRemoved(q, gb, ga) {
 			return "gateway-services:mapping-row-removed:index-over-remaining-rows-only"
 		}
-		if q.Peer == "" && (q.Kind == "ConnectServiceNodes" || q.Kind == "CheckConnectServiceNodes") && stoppedBeingConnect(q, b, a) {
+		// (round 5: the three Connect mechanisms are the same code with the peer name as a parameter — the
+		// classifiers look at the rows of the query's peer, local or imported)
+		if (q.Kind == "ConnectServiceNodes" || q.Kind == "CheckConnectServiceNodes") && stoppedBeingConnect(q, b, a) {
 			return "catalog:connect-queries:instance-stops-being-connect:extinction-index-read-while-service-exists"
 		}
-		if q.Peer == "" && q.Kind == "CheckConnectServiceNodes" && proxyNameExtinct(q, b, a) {
+		if q.Kind == "CheckConnectServiceNodes" && proxyNameExtinct(q, b, a) {
 			return "catalog:connect-health:proxy-service-name-extinct:index-over-remaining-names-only"
 		}
-		if q.Peer == "" && q.Kind == "ConnectServiceNodes" && (hasProxyFor(q, b) || hasProxyFor(q, a)) {
+		if q.Kind == "ConnectServiceNodes" && (hasProxyFor(q, b) || hasProxyFor(q, a)) {
 			return "catalog:connect-service-nodes:index-of-target-name-not-of-proxy-instances"
 		}
 	}
